@@ -118,3 +118,21 @@ Proof. exact t2_oracle_variance. Qed.
 Theorem C03_t2_oracle : forall fops : list (@op float), forallb no_sqrt_kind fops = true ->
   snd (run XROps [] (map (map_op f2xr) fops)) = map (map_obs q2x) (snd (run XQOps [] (map qop fops))).
 Proof. exact t2_oracle. Qed.
+
+(* EfficiencyRatio for EVERY number type (so bit-exactly for binary64): the output after any history is |first - x| / volatility where the
+   volatility is accumulated by the code's own loop, in chronological order, over the last n+1 prices (the whole history while fewer
+   than n earlier prices exist; the very first input is measured against the zero padding) *)
+From TA Require Import Proofs.GEr.
+Theorem C03_er_any_carrier : forall (F : Type) (O : Ops F) p s xs, er_new O p = Ok s ->
+  res_outs (er_next O) s xs = ger_stream O (N.to_nat p) [] xs.
+Proof. exact @ger_refines. Qed.
+Theorem C03_er_stream_def : forall (F : Type) (O : Ops F) p h x xs,
+  ger_stream O p h [] = [] /\
+  ger_stream O p h (x :: xs) = ger_spec O p h x :: ger_stream O p (h ++ [x]) xs /\
+  ger_spec O p h x =
+    (if (length h <? p)%nat then ger_ratio O (hd (Base.zero O) h) x (h ++ [x])
+     else ger_ratio O (hd (Base.zero O) (lastn (S p) (h ++ [x]))) x (tl (lastn (S p) (h ++ [x])))) /\
+  (forall first scan, ger_ratio O first x scan =
+     Base.div O (Base.abs O (Base.sub O first x))
+       (fst (fold_left (fun '(volatility, previous) n => (Base.add O volatility (Base.abs O (Base.sub O previous n)), n)) scan (Base.zero O, first)))).
+Proof. intros. repeat split; reflexivity. Qed.
